@@ -128,7 +128,7 @@ def _bnd_component(R, pid, tier, seed):
             continue
         if pid == "C12" and c["opt"] in exp["C12_excluded"]:
             continue
-        if pid == "C17" and c["opt"] not in exp["elitist"]:
+        if pid == "C17" and c["opt"] not in exp["elitist"] and c["opt"] not in exp.get("monotone_in_campaign_not_structural", []):
             continue
         ran += 1
         ckey = (c["opt"], c["kind"], c["direction"], c.get("mode"), sc, c.get("scale"), c.get("stopping"), c.get("seed"))
@@ -163,7 +163,10 @@ def _bnd_component(R, pid, tier, seed):
                 msgs[f"BND.C17.{c['opt']}"] = f"best cost got worse at generation(s) {r['non_monotone_at']}"
         else:
             if mon in r.get("monitors", {}):
-                msgs[f"BND.{pid}.{c['opt']}"] = r["monitors"][mon]
+                kq = f"BND.{pid}.{c['opt']}"
+                if pid == "C10":
+                    kq += f".{sc}.x{c.get('scale')}"          # sizes: keyed by scenario and population scale
+                msgs[kq] = r["monitors"][mon]
             if pid == "C12" and sc == "single" and "C02" in r.get("monitors", {}):
                 msgs[f"BND.C12.{c['opt']}.debug"] = r["monitors"]["C02"]
             if r.get("exc") and pid in ("C07", "C08", "C18", "C12"):
